@@ -18,6 +18,8 @@ pub struct Ledger {
     /// fault injection: when `Some(0)` the next callback panics; counts down otherwise
     pub fuse: Option<u64>,
     pub callbacks: u64,
+    /// C02: `Drop::drop` of a token counts as a callback (and may be the one that panics)
+    pub drop_callbacks: bool,
 }
 
 /// one process-wide ledger (tokens may be created / dropped on worker threads)
@@ -133,12 +135,23 @@ impl Default for Tok {
     }
 }
 
+pub fn set_drop_callbacks(on: bool) {
+    ledger().drop_callbacks = on;
+}
+
 impl Drop for Tok {
     fn drop(&mut self) {
-        let mut l = ledger();
-        l.dropped += 1;
-        if !l.live.remove(&self.id) {
-            l.double_drops.push(self.id);
+        let on = ledger().drop_callbacks;
+        {
+            let mut l = ledger();
+            l.dropped += 1;
+            if !l.live.remove(&self.id) {
+                l.double_drops.push(self.id);
+            }
+        }
+        // the bookkeeping above is done first: a panicking destructor still counts as run
+        if on {
+            callback();
         }
     }
 }
